@@ -44,8 +44,9 @@ GROUPS = {
     'Arena': dict(kind='translate', flags=RELEASE, names=['mi_arena_id_is_suitable', '_mi_arena_memid_is_suitable', 'mi_arena_id_index', 'mi_arena_id_create', '_mi_arena_id_none', 'mi_block_count_of_size', 'mi_arena_block_size', 'mi_arena_size'], mem=False, namespace='GenA', strict=False),
     'Purge': dict(kind='custom', flags=RELEASE, fn='gen_purge'),
     # functions with `while` loops (-> whileN): mi_arena_purge_range (two nested loops; its calls of mi_arena_purge as effect log) and
-    # mi_page_free_list_extend (the stores that thread the fresh blocks into the free list as effect log)
-    'Loops': dict(kind='translate', flags=RELEASE, names=['mi_bitmap_index_create_ex', 'mi_bitmap_index_create', 'mi_arena_purge_range', 'mi_page_block_at', 'mi_page_free_list_extend'], mem=False, namespace='GenL'),
+    # mi_page_free_list_extend (the stores that thread the fresh blocks into the free list as effect log), the commit-mask loops of
+    # segment.c, the bounded string functions of libc.c (stores as effect log, loads through the oracle ld8)
+    'Loops': dict(kind='translate', flags=RELEASE, names=['mi_bitmap_index_create_ex', 'mi_bitmap_index_create', 'mi_arena_purge_range', 'mi_page_block_at', 'mi_page_free_list_extend', 'mi_commit_mask_create', '_mi_commit_mask_committed_size', '_mi_strnlen', '_mi_strlcpy', '_mi_strlcat'], mem=False, namespace='GenL'),
     'Formats': dict(kind='custom', flags=RELEASE, fn='gen_formats'),
     'Override': dict(kind='custom', flags=RELEASE + ('-DMI_MALLOC_OVERRIDE', '-DMI_SHARED_LIB', '-DMI_SHARED_LIB_EXPORT'), fn='gen_override'),
     'Commit': dict(kind='custom', flags=RELEASE, fn='gen_commit'),
